@@ -48,3 +48,10 @@ func sleepSim(us int) {
 	simrt.Yield("h:sleep")
 	time.Sleep(time.Duration(us) * time.Microsecond)
 }
+
+// cleanDir empties a scratch directory (job files of earlier cases must not leak into this one).
+func cleanDir(d string) string {
+	os.RemoveAll(d)
+	os.MkdirAll(d, 0755)
+	return d
+}
